@@ -12,6 +12,8 @@ C.reexec_under_impl_python()
 
 CID = "C19"
 M_MODEL, M_SPEC, M_DEFAULT = 0, 1, 2
+# .vo files this check needs (relative to coq/): its props file and what the extraction imports
+VO = ["props/C19.vo", "gen/EasterGen.vo", "easter/EasterSpec.vo"]
 
 
 def impl(year, method):
@@ -46,7 +48,7 @@ def cases(tier):
 
 def replay(path):
     data = json.load(open(path))
-    C.ensure_built(["easter"])
+    C.ensure_built(["easter"], VO)
     o = C.Oracle("easter")
     inp = data.get("input")
     if isinstance(inp, dict) and "year" in inp:
@@ -70,7 +72,7 @@ def main():
     verdict = C.Verdict(CID)
     build_ok, build_log, build_err = True, "", None
     try:
-        build_ok, build_log = C.ensure_built(["easter"])
+        build_ok, build_log = C.ensure_built(["easter"], VO)
     except C.BuildError as ex:
         build_err = ex
     if build_err is not None:
